@@ -18,6 +18,7 @@ byte-level model of the stream between the two Machines:
 import copy
 import json
 import os
+import re
 
 from .. import core
 from ..core import Inconclusive
@@ -53,10 +54,10 @@ def model_checking(ck):
     runs.append(("rotation: one direction, 8 messages (5 rotations), every partial flush, no adversary",
                  dict(base, MaxMsgs=8, MaxAdv=0, Sizes="{0, 1}", Vals="{1}", WDirs='{"ab"}'), "mc_rot"))
     if thorough:
-        runs.append(("one direction, 3 messages, 2 adversary moves",
-                     dict(base, MaxMsgs=3, MaxAdv=2, Sizes="{0, 1}", Vals="{1}", WDirs='{"ab"}'), "mc_adv2"))
-        runs.append(("both directions, 3 messages, 1 adversary move",
-                     dict(base, MaxMsgs=3, Sizes="{0, 1}", Vals="{1}"), "mc_3msg"))
+        runs.append(("one direction, 2 messages, 2 adversary moves",
+                     dict(base, MaxAdv=2, Sizes="{0, 1}", Vals="{1}", WDirs='{"ab"}'), "mc_adv2"))
+        runs.append(("one direction, 3 messages, 1 adversary move",
+                     dict(base, MaxMsgs=3, Sizes="{0, 1}", Vals="{1}", WDirs='{"ab"}'), "mc_3msg"))
     for what, consts, name in runs:
         ck.model_check(SPEC, "TransportMC", "TransportMC.cfg", what, constants=consts, name=name,
                        workers=MC_WORKERS, timeout=2400)
@@ -64,7 +65,7 @@ def model_checking(ck):
     # the caller contract is necessary: without it the model (which follows the code) delivers bytes never sent
     r = ck.model_check(SPEC, "TransportMC", "TransportMCObs.cfg",
                        "ReaderStops = FALSE: DeliveredGenuine must break (error not latched by Machine)",
-                       must_hold=False, constants=dict(base), name="mc_obs", workers=MC_WORKERS, timeout=1200)
+                       must_hold=False, constants=dict(base, Sizes="{1}", Vals="{1}", WDirs='{"ab"}'), name="mc_obs", workers=MC_WORKERS, timeout=1200)
     if r.violation != "invariant DeliveredGenuine":
         raise Inconclusive("TransportMCObs: expected the violation of DeliveredGenuine, got %s" % r.violation)
     ck.notes.append("observation O-C11-1 (model level, reproduced on the real Machine by scenario roleconf): a reader "
@@ -88,6 +89,13 @@ def trace_stats(recs):
             lastk = {}
             continue
         cur.append((a, r["m"], r["d"], r["kind"], r["size"], r["k"], r["o1"], r["o2"], r["o3"], r["err"]))
+        if a == "CWrite" and r["err"] == "":
+            st["writes"] += len(r["hs"])
+            st["conn_chunked"] = st.get("conn_chunked", 0) + (1 if len(r["hs"]) > 1 else 0)
+        elif a == "CRead":
+            st["conn_reads"] = st.get("conn_reads", 0) + 1
+            if r["err"] == "" and r["h"]:
+                st["delivered"] += 1
         if a == "Write" and r["err"] == "":
             st["writes"] += 1
             if r["size"] >= 65000:
@@ -132,6 +140,10 @@ def validate_all(ck, trace, name, what):
         core.write_ndjson(p, batch)
         v = ck.validate(SPEC, "TransportTrace", "TransportTrace.cfg", p, constants=REAL,
                         name="val_%s_%d" % (name, bi), timeout=2400)
+        for m in re.finditer(r'<<"QUIRK", "([^"]+)", (\d+)>>', v["res"].out):
+            ln = int(m.group(2))
+            a0, _ = core.slice_trace(batch, ln, is_reset)
+            ck.quirks.append((m.group(1), batch[a0:ln]))
         if v["ok"]:
             ck.cov["traces_validated_against_impl"] += sum(1 for r in batch if is_reset(r))
             os.remove(p)
@@ -188,6 +200,30 @@ def negative_controls(ck, recs):
             dict(mutation="%s (line %d)" % (what, j + 1), rejected_by=v["invariant"], at_line=v["line"]))
 
 
+CONN_EOF_KEY = "conn-read:empty-message:eof"
+
+
+def conn_quirk(ck, recs):
+    """The trace spec accepts (constant ConnEmptyEOFQuirk) and announces every Conn.Read that answered a delivered
+    zero-length message with io.EOF. Reported as a finding when the key is registered, else as a candidate."""
+    hits = [t for k, t in ck.quirks if k == "conn-read-empty-message-eof"]
+    if not hits:
+        return
+    one = os.path.join(ck.out, "conn_empty_message_trace.ndjson")
+    core.write_ndjson(one, min(hits, key=len))
+    i = len(min(hits, key=len)) - 1
+    what = ("brontide.Conn.Read answers an authenticated, consumed ZERO-LENGTH message with (0, io.EOF) "
+            "(bytes.Buffer.Read on the empty readBuf): a stream reader sees the end of the stream although the "
+            "transport is intact; Machine.ReadMessage / ReadNextHeader+ReadNextBody (what peer.Brontide uses) "
+            "deliver it correctly; %d occurrences in this run, shortest reproduction %d events" % (len(hits), i))
+    ck.cov["conn_empty_message_eof"] = len(hits)
+    if any(f.get("property") == ck.pid and core.key_matches(f.get("key", ""), CONN_EOF_KEY) for f in ck.findings):
+        ck.violation(CONN_EOF_KEY, what, files={"trace.ndjson": one})
+    else:
+        core.log("FINDING-CANDIDATE property=%s key=%s :: %s" % (ck.pid, CONN_EOF_KEY, what))
+        ck.notes.append("finding candidate (not registered in known_findings.json) key=%s: %s" % (CONN_EOF_KEY, what))
+
+
 SCENARIOS = {
     # observation O-C11-1 on the real code: corrupt the header of a 2-byte message whose payload is 0x0002;
     # the reader that goes on after the error opens the BODY as a header and the next HEADER as a body
@@ -219,6 +255,7 @@ def write_scenarios(d):
 
 def run(ck):
     thorough = ck.tier == "thorough"
+    ck.quirks = []
     if not os.environ.get("C11_SKIP_MC"):
         model_checking(ck)
     else:
@@ -253,8 +290,17 @@ def run(ck):
         ck.cov["samples"].append({"free_driver_failed_reads": [
             {k: r[k] for k in ("a", "d", "err", "Arn", "Brn", "Lab", "Lba")} for r in fails]})
 
+    # (d) brontide.Conn (Write with chunking, Read through readBuf) over the same pipes, reads fragmented
+    res = ck.go_test(PKG, "^TestVerifC11Conn$", HARNESS, extra_overlay=overlay(), name="conn",
+                     env={"VERIF_SESSIONS": 120 if thorough else 25, "VERIF_STEPS": 80 if thorough else 60}, timeout=1500)
+    trace = os.path.join(res["dir"], "trace.ndjson")
+    if res["rc"] != 0 or not os.path.exists(trace):
+        raise Inconclusive("Conn driver failed:\n" + res["out"][-3000:])
+    ok3, recs3 = validate_all(ck, trace, "conn", "brontide.Conn driver")
+    conn_quirk(ck, recs3)
+
     ev = ck.cov.get("events", {})
-    if ok and ok2:
+    if ok and ok2 and ok3:
         # vacuity: the run must have exercised what the property talks about
         need = dict(delivered=1000, read_fail=20, adv=20, partial_flush=200, rot=4, hs_fail=3, big=3)
         low = {k: ev.get(k, 0) for k, n in need.items() if ev.get(k, 0) < n}
